@@ -142,11 +142,19 @@ def check_attribution(tr, msg, rec, res, tag=''):
     nothing else in the table changed; labels on the rendered line are the model's."""
     from core import wl
     m = rec['m']
-    if not msg.obj.resolved() or key_of(msg.obj) != rec['target'].key():
-        res.bad('target-attribution' + tag, '%s: target resolved to %r, model says %r' % (tr.lines[-1], key_of(msg.obj), rec['target'].key()))
-    if msg.obj.connection is None or msg.obj.connection.name() != rec['conn'].name:
-        res.bad('message-connection' + tag, '%s: on connection %r, model says %r' % (
-            tr.lines[-1], msg.obj.connection.name() if msg.obj.connection else None, rec['conn'].name))
+    if rec['target'].ghost:
+        # creation never seen (mid-session log): stays unresolved, known by what the line says
+        if msg.obj.resolved() or (msg.obj.type, msg.obj.id) != (rec['target'].iface, rec['target'].id):
+            res.bad('target-attribution:unseen' + tag, '%s: target became %r, model says %r' % (tr.lines[-1], str(msg.obj), rec['target'].key()))
+    else:
+        if not msg.obj.resolved() or key_of(msg.obj) != rec['target'].key():
+            res.bad('target-attribution' + tag, '%s: target resolved to %r, model says %r' % (tr.lines[-1], key_of(msg.obj), rec['target'].key()))
+        if msg.obj.connection is None or msg.obj.connection.name() != rec['conn'].name:
+            res.bad('message-connection' + tag, '%s: on connection %r, model says %r' % (
+                tr.lines[-1], msg.obj.connection.name() if msg.obj.connection else None, rec['conn'].name))
+    rc0 = tr.conn_by_name(rec['conn'].name)
+    if rc0 is None or not rc0.messages() or rc0.messages()[-1] is not msg:
+        res.bad('message-connection:record' + tag, '%s: not the last recorded message of connection %s' % (tr.lines[-1], rec['conn'].name))
     if len(msg.args) != len(m['args']):
         res.bad('argcount' + tag, tr.lines[-1])
     else:
@@ -155,6 +163,10 @@ def check_attribution(tr, msg, rec, res, tag=''):
             if mo is None:
                 if isinstance(a, wl.Arg.Object):
                     res.bad('arg-invented-object' + tag, '%s arg %d' % (tr.lines[-1], i))
+                continue
+            if mo.ghost:
+                if not isinstance(a, wl.Arg.Object) or a.obj.resolved() or (a.obj.type, a.obj.id) != (mo.iface, mo.id):
+                    res.bad('object-arg-attribution:unseen' + tag, '%s arg %d became %s, model says %r' % (tr.lines[-1], i, str(a), mo.key()))
                 continue
             if not isinstance(a, wl.Arg.Object) or not a.obj.resolved() or key_of(a.obj) != mo.key():
                 got = key_of(a.obj) if isinstance(a, wl.Arg.Object) else type(a).__name__
@@ -270,7 +282,7 @@ def run_history(specs, checks, dialect='new', comma=False, res=None):
 # ------------------------------------------------------------------------------------------------
 # Hypothesis rule-based machine over the step kinds of histgen
 
-def make_machine(col, stage, tier, checks, profile=None, max_conns=3, kinds=('message', 'delete', 'bind', 'server_event', 'sync', 'newer', 'retype', 'enum')):
+def make_machine(col, stage, tier, checks, profile=None, max_conns=3, kinds=('message', 'delete', 'bind', 'server_event', 'sync', 'newer', 'retype', 'enum', 'midsession')):
     from hypothesis import strategies as st
     from hypothesis.stateful import RuleBasedStateMachine, rule, initialize, precondition
 
@@ -339,6 +351,9 @@ def make_machine(col, stage, tier, checks, profile=None, max_conns=3, kinds=('me
         if 'enum' in kinds:
             @rule(data=st.data())
             def enum_message(self, data): self._step(data, 'enum')
+        if 'midsession' in kinds:
+            @rule(data=st.data())
+            def message_on_object_never_seen_created(self, data): self._step(data, 'midsession')
         if 'deep' in kinds:
             @rule(data=st.data())
             def deep_reuse(self, data): self._step(data, 'deep')
